@@ -72,7 +72,8 @@ INEXACT_AX = tuple(k for k in sorted(AX) if not _exact_nodes(AX[k]))
 
 DTYPES = ['f64', 'f32', 'c128', 'i64', 'U']
 NP_DT = {'f64': np.dtype('float64'), 'f32': np.dtype('float32'), 'c128': np.dtype('complex128'),
-         'i64': np.dtype('int64'), 'U': np.dtype('<U4')}
+         'i64': np.dtype('int64'), 'U': np.dtype('<U4'), 'c64': np.dtype('complex64'),
+         'i32': np.dtype('int32')}
 
 # 1-d partitions of [0, 4] for Resampling / linear_deform: name -> (nodes, exact)
 P1 = {
@@ -217,6 +218,14 @@ def configs(tier):
             for sc in _scheme_list(3)[:2] + _scheme_list(3)[4:]:
                 for dt in (dts if th else ('f64',)):
                     out.append({'kind': 'resample', 'dom': dom, 'ran': ran, 'scheme': sc,
+                                'dtype': dt})
+
+    # ---- sdtype: value dtype of the space x non-dyadic grids x jump functions
+    for grid in ('nu', 'ud'):
+        for d in (1, 2):
+            for style in SD_STYLES:
+                for dt in SD_DTYPES:
+                    out.append({'kind': 'sdtype', 'grid': grid, 'd': d, 'style': style,
                                 'dtype': dt})
 
     # ---- history: one callable object, every sequence of calls of length 2 (thorough: 3)
@@ -1312,6 +1321,159 @@ def _run_deform(cfg):
 
 
 # ------------------------------------------------------------------------------------------
+# kind: sdtype -- value dtype of the space x grids whose float64 coordinates are NOT single
+# precision numbers.  "The function is evaluated at the grid points": the callable must receive
+# the float64 grid coordinates whatever the value dtype of the space, and the result is the
+# float64 (complex128) function value cast ONCE to the space dtype (for integer spaces numpy's
+# cast of the float values, i.e. truncation, which is what every code path of dual_use_func
+# does: "Cast to proper dtype if needed").
+
+SD_DTYPES = ['f32', 'c64', 'i64', 'i32', 'f64', 'c128']
+SD_STYLES = ['oop', 'ip', 'dual', 'vec', 'obj']
+_SD_NODES = {1: [[0.1, 0.3, 0.7, 0.9]], 2: [[0.1, 0.3, 0.7, 0.9], [0.2, 0.6]]}
+
+
+def _sd_space(cfg):
+    d, dt = cfg['d'], NP_DT[cfg['dtype']]
+    if cfg['grid'] == 'nu':
+        nodes = _SD_NODES[d]
+        part = odl.nonuniform_partition(*nodes, min_pt=[0.0] * d, max_pt=[1.0] * d)
+        sp = odl.DiscretizedSpace(part, odl.tensor_space(part.shape, dtype=dt))
+    else:
+        # uniform grid 0.05, 0.15, ...: the coordinates are the ones the space reports
+        # (where the nodes sit is C14's business)
+        sp = odl.uniform_discr([0.0] * d, [1.0] * d, (10, 3)[:d], dtype=dt)
+        nodes = [[float(v) for v in c] for c in sp.grid.coord_vectors]
+    return sp, nodes
+
+
+def _sd_cases(d, nodes, cplx):
+    """(label, vectorised value(x), scalar value(p))."""
+    import math
+    for k in range(d):
+        # returns its argument unchanged: the sampled values ARE the grid coordinates
+        yield ('identity x[%d]' % k, (lambda x, k=k: x[k]), (lambda p, k=k: p[k]))
+        for t in nodes[k]:
+            # threshold as a float64 *array*: a Python scalar would be cast to the dtype of
+            # x by numpy's value-based promotion and hide a rounded mesh
+            ta = np.array([t])
+            yield ('x[%d] <= %r' % (k, t),
+                   (lambda x, k=k, ta=ta: np.where(x[k] <= ta, 1.0, 0.0)),
+                   (lambda p, k=k, t=t: 1.0 if p[k] <= t else 0.0))
+            yield ('x[%d] < %r' % (k, t),
+                   (lambda x, k=k, ta=ta: np.where(x[k] < ta, 2.0, -1.0)),
+                   (lambda p, k=k, t=t: 2.0 if p[k] < t else -1.0))
+    yield ('floor(10 x[0])', (lambda x: np.floor(10 * x[0])),
+           (lambda p: float(math.floor(10 * p[0]))))
+    yield ('x[0] < 1/3', (lambda x: np.where(x[0] < 1 / 3, 1.0, 0.0)),
+           (lambda p: 1.0 if p[0] < 1 / 3 else 0.0))
+    if cplx:
+        yield ('x[0] + i x[-1]', (lambda x: x[0] + 1j * x[-1]), (lambda p: p[0] + 1j * p[-1]))
+
+
+def _sd_callable(style, val, sval, cplx):
+    if style == 'oop':
+        return lambda x: val(x)
+    if style == 'ip':
+        def f(x, out):
+            out[:] = val(x)
+        return f
+    if style == 'dual':
+        def f(x, out=None):
+            if out is None:
+                return val(x)
+            out[:] = val(x)
+        return f
+    if style == 'vec':
+        return vectorize(lambda x: (complex if cplx else float)(sval(x)))
+
+    class C(object):
+        def __call__(self, x):
+            return val(x)
+    return C()
+
+
+def _run_sdtype(cfg):
+    rec = _Rec()
+    d, style, dtn = cfg['d'], cfg['style'], cfg['dtype']
+    dt = NP_DT[dtn]
+    cplx = dt.kind == 'c'
+    sp, nodes = _sd_space(cfg)
+    site = 'element(callable)[%s]' % _style_class(style)
+    ssite = 'sampling_function[%s]' % _style_class(style)
+    where = 'grid=%s nodes=%s dtype=%s' % (cfg['grid'], nodes, dtn)
+    wide = np.dtype(complex if cplx else float)
+    rec.sigs.add('sdtype|%s|%s' % (style, dtn))
+
+    def cast(vals):
+        with np.errstate(all='ignore'):
+            return np.asarray(vals).astype(dt)           # rounded / truncated ONCE
+
+    for label, val, sval in _sd_cases(d, nodes, cplx):
+        want = cast(R.sample(nodes, sval, wide))
+        f = _sd_callable(style, val, sval, cplx and 'i x' in label)
+        try:
+            el = sp.element(f)
+            got = el.asarray()
+            rec.evals += 1
+            if got.dtype != dt or not np.array_equal(got, want):
+                rec.viol(site, 'values_differ',
+                         '%s callable %s: expected (float64 values at the float64 grid '
+                         'points, cast once to %s) %s, got %s'
+                         % (where, label, dt, _short(want), _short(got)))
+        except Exception as ex:
+            rec.viol(site, _exc(ex), '%s callable %s: %r' % (where, label, ex))
+        # the same through sampling_function / point_collocation with out_dtype = space dtype
+        try:
+            F = DU.sampling_function(_sd_callable(style, val, sval, cplx and 'i x' in label),
+                                     sp.domain, out_dtype=dt)
+            got = np.asarray(DU.point_collocation(F, sp.meshgrid))
+            o = np.empty(sp.shape, dtype=dt)
+            DU.point_collocation(F, sp.meshgrid, out=o)
+            pa = np.array(list(itertools.product(*nodes))).T.reshape(d, -1)
+            gota = np.asarray(F(pa))
+            rec.evals += 3
+            for name, g_ in (('mesh', got), ('mesh_out', o),
+                             ('point_array', gota.reshape(sp.shape))):
+                if g_.dtype != dt or not np.array_equal(g_, want):
+                    rec.viol(ssite, name + '_differs', '%s callable %s out_dtype=%s: expected '
+                             '%s, got %s' % (where, label, dt, _short(want), _short(g_)))
+        except Exception as ex:
+            rec.viol(ssite, 'dtype_' + _exc(ex), '%s callable %s: %r' % (where, label, ex))
+
+    # a callable that records what it receives: the float64 grid coordinates, exactly
+    seen = []
+
+    def recorder(x):
+        seen.append([np.array(xi, copy=True) for xi in x])
+        return x[0]
+
+    def recorder_ip(x, out):
+        seen.append([np.array(xi, copy=True) for xi in x])
+        out[:] = x[0]
+    for f in (recorder_ip,) if style == 'ip' else (recorder,):
+        del seen[:]
+        try:
+            sp.element(f)
+        except Exception as ex:
+            rec.viol(site, 'recorder_' + _exc(ex), '%s: %r' % (where, ex))
+            continue
+        rec.evals += 1
+        good = len(seen) >= 1
+        for mesh in seen:
+            good = good and len(mesh) == d
+            for k, xi in enumerate(mesh[:d]):
+                good = (good and xi.dtype == np.dtype('float64') and
+                        xi.ravel().tobytes() == np.array(nodes[k]).tobytes())
+        if not good:
+            rec.viol(site, 'mesh_not_grid_points',
+                     '%s: the callable received %s, the grid coordinates are float64 %s'
+                     % (where, [[(xi.dtype.name, _short(xi.ravel())) for xi in m]
+                                for m in seen][:2], nodes))
+    return rec.result()
+
+
+# ------------------------------------------------------------------------------------------
 # kind: history -- one callable object used for several successive calls
 #
 # The object behind ``odl.util.vectorize`` creates its numpy.vectorize lazily and keeps it: it
@@ -1603,7 +1765,8 @@ def _run_history_interp(cfg, rec):
 # ------------------------------------------------------------------------------------------
 
 _RUN = {'interp': _run_interp, 'sample': _run_sample, 'sfunc': _run_sfunc,
-        'resample': _run_resample, 'deform': _run_deform, 'history': _run_history}
+        'resample': _run_resample, 'deform': _run_deform, 'history': _run_history,
+        'sdtype': _run_sdtype}
 
 
 def run(cfg):
@@ -1673,6 +1836,12 @@ def meta(tier):
                        'a string and with every tuple in {nearest, linear}^d',
             'conventions': 'sparse mesh, dense mesh, mesh with single-point axes (every subset '
                            'of axes), point array (d,N), nested list, every single point, out=',
+            'sdtype': 'space dtypes %s on grids with coordinates that are not float32 numbers '
+                      '([0.1,0.3,0.7,0.9] x [0.2,0.6]; uniform 0.05,0.15,...): identity per '
+                      'axis, step functions <= and < at EVERY node, floor(10x), x<1/3, a '
+                      'recorder of the mesh the callable receives; styles %s; element() and '
+                      'sampling_function/point_collocation with out_dtype' % (SD_DTYPES,
+                                                                                SD_STYLES),
             'history': 'functions with non-uniform return type (int|float, bool|float, '
                        'float|complex, ints for integer points) and a float-only control; '
                        'menu: single points, integer and float point arrays, element() / mesh '
